@@ -671,7 +671,10 @@ class CallMixin(object):
             st.alloc = na
         # result
         if c.fresh_result:
-            res = self.alloc(st, c.fresh_result)
+            if c.fresh_result.startswith("list:"):
+                res = self.new_symbolic_seq(st, "list", c.fresh_result[5:])     # a new list of typed elements
+            else:
+                res = self.alloc(st, c.fresh_result)
         elif c.result:
             res = self.typed(u.fresh_val("res"), c.result)
             st.assume(self.type_pred(res.z, c.result))
